@@ -145,10 +145,7 @@ IName ==
    /\ fl' = ClausesOf(Failures(kw', nm'))
    /\ UNCHANGED <<gkw, touched>>
 
-\* (guards hoisted out of the quantifiers: TLC would enumerate Problems in every state)
-INext == \/ (Lang = "pddl" /\ touched < MaxTouch /\ \E f \in UFeats : ITouch(f))
-         \/ (wr.next = 0 /\ \E p \in Problems : INew(p))
-         \/ IName
+INext == (\E f \in UFeats : ITouch(f)) \/ (\E p \in Problems : INew(p)) \/ IName
 ISpec == IInit /\ [][INext]_ivars
 
 NamedOK == "Named" \notin fl
